@@ -185,6 +185,7 @@ type world struct {
 	lens    []int
 	engines []*engine
 	slash   *route.Engine
+	ctxFile *route.Engine
 	// shortCache: an engine whose file cache entries expire after 2 ms
 	shortCache *engine
 }
@@ -274,6 +275,16 @@ func setup() (*world, error) {
 		e.StaticFS("/s", &app.FS{Root: wd.root, AcceptByteRange: true, PathRewrite: strip, CacheDuration: 2 * time.Millisecond})
 	})
 	wd.shortCache = &engine{"short-cache", e5, true}
+	// handlers that pick the file themselves and answer with ctx.File (the route parameter is
+	// the index of the name: the request target says nothing about the file's name)
+	wd.ctxFile = rig.NewEngine(opt(), func(e *route.Engine) {
+		h := func(c context.Context, ctx *app.RequestContext) {
+			i, _ := strconv.Atoi(ctx.Param("i"))
+			ctx.File(filepath.Join(wd.root, "d5", oddNames[i%len(oddNames)]))
+		}
+		e.GET("/dl/:i", h)
+		e.HEAD("/dl/:i", h)
+	})
 	// the file system root itself as the root (what ctx.File and ServeFile use)
 	wd.slash = rig.NewEngine(opt(), func(e *route.Engine) {
 		e.StaticFS("/s", &app.FS{Root: "/", GenerateIndexPages: true, PathRewrite: strip})
@@ -671,6 +682,52 @@ func work(w *mon.W) {
 		if msgs[1].Status != 200 || !bytes.Equal(msgs[1].Body, content(L, L)) {
 			c.Violate("fs-response", "engine slash-root, GET /s%s: status %d, %d body bytes; want the %d bytes of the file", abs, msgs[1].Status, len(msgs[1].Body), L)
 		}
+	})
+	// ctx-file: a handler answers with ctx.File(<a path of its own choosing>): whatever bytes
+	// the file's name is made of, the response carries that file (whole, a range of it, or its
+	// headers for HEAD)
+	w.Cases("ctx-file", uint64(w.Pick(60, 600)), func(c *mon.Case) {
+		r := c.R
+		i := r.Intn(len(oddNames))
+		name := oddNames[i]
+		full := []byte("CONTENT-OF:" + name)
+		method := r.Str("GET", "GET", "HEAD")
+		rng := r.Str("", "", "bytes=2-7", "bytes=-3", "bytes=5-")
+		req := fmt.Sprintf("%s /dl/%d HTTP/1.1\r\nHost: x\r\n", method, i)
+		want, status := full, 200
+		if rng != "" {
+			req += "Range: " + rng + "\r\n"
+			status = 206
+			switch rng {
+			case "bytes=2-7":
+				want = full[2:8]
+			case "bytes=-3":
+				want = full[len(full)-3:]
+			default:
+				want = full[5:]
+			}
+		}
+		c.Detail = func() interface{} {
+			return map[string]interface{}{"engine": "ctx-file", "file": "d5/" + name, "request": req}
+		}
+		sc := sconn.New([][]byte{[]byte(req + "\r\n")}, sconn.EOF)
+		res := rig.Serve(wd.ctxFile, sc, 4096, false, 30*time.Second)
+		if res.Hang || res.Panic != nil {
+			c.Violate("hang", "ctx.File(d5/%q): Serve did not finish or panicked: %v", name, res.Panic)
+			return
+		}
+		msgs, err := wire.ParseResponses(res.Out, []string{method}, true)
+		if err != nil || len(msgs) != 1 {
+			c.Violate("response-malformed", "ctx.File(d5/%q), %s %s: %d responses, %v", name, method, rng, len(msgs), err)
+			return
+		}
+		w.Count("ctx_file_requests", 1)
+		m := msgs[0]
+		if cl, _ := m.Get("Content-Length"); m.Status != status || cl != strconv.Itoa(len(want)) || (method == "GET" && !bytes.Equal(m.Body, want)) {
+			c.Violate("fs-response", "handler calls ctx.File(<root>/d5/%q), %s with Range %q: status %d, Content-Length %s, body %q; want %d and the %d bytes %q of that file", name, method, rng, m.Status, cl, trunc(string(m.Body), 60), status, len(want), want)
+			return
+		}
+		w.Shape(mon.Hash64("ctx-file", name, method, rng))
 	})
 	// listing-links: every entry of a generated listing is linked by a target that, requested
 	// from the same handler, serves that entry (names are data, not URI references)
